@@ -2,6 +2,7 @@
 from __future__ import annotations
 
 import itertools
+import operator
 import os
 import warnings
 
@@ -20,7 +21,10 @@ META = {
     "the 9 operators, filled with constants, variables and both mixtures, is placed in output, filter argument, macro "
     "default, loop filter, set and if-test position; the hook log (in evaluation order) and the rendered text must equal "
     "what the reference evaluator produces with the same hook; operators outside the subset must never be logged.",
-    "note": "Bounded: depth <= 2, 4 leaf vectors, 2 data assignments (ints; a string for x), 6 placements (quick: one "
+    "note": "Environments come in two flavours (hook delegating to the stock operator tables / hook computing the result "
+    "itself with the intercepted operators removed from binop_table/unop_table); templates are built from source and, for "
+    "shapes with constant leaves, also from a node tree parsed by a plain non-sandboxed Environment (thorough: also a tree "
+    "with no environment attached). Bounded: depth <= 2, 4 leaf vectors, 2 data assignments (ints; a string for x), 6 placements (quick: one "
     "placement per template in rotation, thorough: all); the one shape with three `**` is excluded. Trusts Python's "
     "operators on ints/floats/strings.",
     "design_ref": "DESIGN.md §4 C20",
@@ -77,20 +81,40 @@ def subsets(quick):
     return out
 
 
-def make_env_class(subset):
+_PY_BIN = {"+": operator.add, "-": operator.sub, "*": operator.mul, "/": operator.truediv, "//": operator.floordiv,
+           "**": operator.pow, "%": operator.mod}
+_PY_UN = {"+": operator.pos, "-": operator.neg}
+
+
+def make_env_class(subset, tables="stock"):
+    """tables="stock": the hook delegates to the inherited call_binop/call_unop (binop_table/unop_table);
+    tables="removed": the hook computes the result itself and the intercepted operators have NO table entry."""
     from jinja2.sandbox import SandboxedEnvironment
 
     class LoggingSandbox(SandboxedEnvironment):
         intercepted_binops = frozenset(o[1:] for o in subset if o[0] == "b")
         intercepted_unops = frozenset(o[1:] for o in subset if o[0] == "u")
         log = None
+        table_mode = tables
+
+        def __init__(self, *a, **k):
+            SandboxedEnvironment.__init__(self, *a, **k)
+            if tables == "removed":
+                for o in self.intercepted_binops:
+                    del self.binop_table[o]
+                for o in self.intercepted_unops:
+                    del self.unop_table[o]
 
         def call_binop(self, context, operator, left, right):
             self.log.append(("b" + operator, G.canon(left), G.canon(right)))
+            if tables == "removed":
+                return perturb(_PY_BIN[operator](left, right))
             return perturb(SandboxedEnvironment.call_binop(self, context, operator, left, right))
 
         def call_unop(self, context, operator, arg):
             self.log.append(("u" + operator, G.canon(arg)))
+            if tables == "removed":
+                return perturb(_PY_UN[operator](arg))
             return perturb(SandboxedEnvironment.call_unop(self, context, operator, arg))
 
     return LoggingSandbox
@@ -133,19 +157,33 @@ def expected_render(placement, res, log):
     raise AssertionError(placement)
 
 
-def script_for(subset, tsrc, data):
+def script_for(subset, tsrc, data, tables="stock", route="source"):
+    make = "E().from_string(src)" if route == "source" else (
+        "E().from_string(jinja2.Environment().parse(src))" if route == "foreign-ast" else
+        "E().from_string(detached(jinja2.Environment().parse(src)))")
+    drop = "" if tables == "stock" else (
+        "    def __init__(self, *a, **k):\n        super().__init__(*a, **k)\n"
+        "        for o in self.intercepted_binops: del self.binop_table[o]\n"
+        "        for o in self.intercepted_unops: del self.unop_table[o]\n")
+    calc_b = "super().call_binop(context, operator, left, right)" if tables == "stock" else "BIN[operator](left, right)"
+    calc_u = "super().call_unop(context, operator, arg)" if tables == "stock" else "UN[operator](arg)"
     return (
+        "import jinja2, operator as op\n"
+        "BIN = {'+': op.add, '-': op.sub, '*': op.mul, '/': op.truediv, '//': op.floordiv, '**': op.pow, '%': op.mod}\n"
+        "UN = {'+': op.pos, '-': op.neg}\n"
+        "def detached(tree):\n    tree.set_environment(None)\n    return tree\n"
         "from jinja2.sandbox import SandboxedEnvironment\n"
         "class E(SandboxedEnvironment):\n"
         f"    intercepted_binops = frozenset({sorted(o[1:] for o in subset if o[0] == 'b')!r})\n"
         f"    intercepted_unops = frozenset({sorted(o[1:] for o in subset if o[0] == 'u')!r})\n"
+        + drop +
         "    def call_binop(self, context, operator, left, right):\n"
         "        print('  call_binop', operator, repr(left), repr(right))\n"
-        "        return super().call_binop(context, operator, left, right)\n"
+        f"        return {calc_b}\n"
         "    def call_unop(self, context, operator, arg):\n"
         "        print('  call_unop', operator, repr(arg))\n"
-        "        return super().call_unop(context, operator, arg)\n"
-        f"src = {tsrc!r}\nprint(src)\nprint('->', repr(E().from_string(src).render(**{data!r})))\n"
+        f"        return {calc_u}\n"
+        f"src = {tsrc!r}\nprint(src)\nprint('->', repr({make}.render(**{data!r})))\n"
     )
 
 
@@ -162,24 +200,38 @@ def guarded(fn, first=15, second=180):
             return fn()
 
 
-def compiled(cls, tsrc):
+def build(env, tsrc, route):
+    """route "source": env.from_string(source).  "foreign-ast": the source is parsed by a plain, non-sandboxed
+    Environment and the node tree is handed to the intercepting sandbox; "detached-ast": same, with no environment
+    attached to the nodes."""
+    if route == "source":
+        return env.from_string(tsrc)
+    import jinja2
+
+    tree = jinja2.Environment().parse(tsrc)
+    if route == "detached-ast":
+        tree.set_environment(None)
+    return env.from_string(tree)
+
+
+def compiled(cls, tsrc, route="source"):
     """one fresh environment + compiled template per template source (reused for the data assignments)."""
-    hit = _CACHE.get((cls, tsrc))
+    hit = _CACHE.get((cls, tsrc, route))
     if hit is None:
         if len(_CACHE) > 32:
             _CACHE.clear()
         env = cls()
         try:
-            hit = (env, guarded(lambda: env.from_string(tsrc)), None)
+            hit = (env, guarded(lambda: build(env, tsrc, route)), None)
         except core.CaseTimeout:
             hit = (env, None, "CaseTimeout")
         except Exception as e:  # noqa: BLE001
             hit = (env, None, type(e).__name__)
-        _CACHE[(cls, tsrc)] = hit
+        _CACHE[(cls, tsrc, route)] = hit
     return hit
 
 
-def judge(cls, subset, ast, placement, di, p=None):
+def judge(cls, subset, ast, placement, di, p=None, route="source"):
     """run one (expression, placement, data) through jinja2 and the reference;
     -> None (agree / undefined by the model) or (kind, message)."""
     data = DATA[di]
@@ -190,7 +242,7 @@ def judge(cls, subset, ast, placement, di, p=None):
         return None
     want, wlog = expected_render(placement, res, elog)
     tsrc = template_for(placement, G.to_src(ast))
-    env, tmpl, cerr = compiled(cls, tsrc)
+    env, tmpl, cerr = compiled(cls, tsrc, route)
     env.log = glog = []
     if tmpl is None:
         got = ("exc", cerr)
@@ -227,7 +279,7 @@ def judge(cls, subset, ast, placement, di, p=None):
         kind = "output"
     if kind is None:
         return None
-    return kind, (f"intercepted={sorted(subset)} {tsrc!r} data={data!r}: log {glog!r} result {got!r}; "
+    return kind, (f"intercepted={sorted(subset)} tables={cls.table_mode} route={route} {tsrc!r} data={data!r}: log {glog!r} result {got!r}; "
                   f"reference log {wlog!r} result {want!r}"), tsrc
 
 
@@ -239,7 +291,7 @@ def shard(arg):
     quick, subset_idx, subset = arg
     warnings.filterwarnings("ignore", category=SyntaxWarning)
     p = core.Part()
-    cls = make_env_class(subset)
+    classes = {"stock": make_env_class(subset, "stock"), "removed": make_env_class(subset, "removed")}
     n = SPACE.count()
     case = subset_idx
     for i in range(n):
@@ -250,25 +302,40 @@ def shard(arg):
         for vname, vec in LEAF_VECS.items():
             ast = G.fill(shape, vec)
             case += 1
-            for placement in ((PLACEMENTS[case % 6],) if quick else PLACEMENTS):
-                for di in range(len(DATA)):
-                    bad = judge(cls, subset, ast, placement, di, p)
-                    if bad is None:
-                        continue
-                    # signature from the smallest sub-expression that still disagrees in the same placement
-                    small = ast
-                    while True:
-                        for _, child in G.subnodes(small):
-                            cb = judge(cls, subset, child, placement, di)
-                            if cb is not None and cb[0].split("/")[0] == bad[0].split("/")[0]:
-                                small, bad = child, cb
-                                break
-                        else:
-                            break
-                    kind, msg, tsrc = bad
-                    p.violation(f"C20/{kind}/{placement}/{root_op(small)}", {
-                        "msg": msg + f"  (found in {G.to_src(ast)!r})", "subset": sorted(subset), "template": tsrc,
-                        "data": DATA[di], "script": script_for(subset, tsrc, DATA[di])})
+            # quick: the two table modes alternate over the cases, one placement per case in rotation;
+            # thorough: both table modes, all placements
+            modes = (("stock", "removed")[case % 2],) if quick else ("stock", "removed")
+            # templates whose expression has constant leaves are additionally built from a node tree that was parsed
+            # by a plain Environment (and, thorough, from a tree with no environment attached)
+            routes = ["source"]
+            if vname == "const" or (not quick and vname in ("cv", "vc")):
+                routes.append("foreign-ast")
+            if not quick and vname == "const":
+                routes.append("detached-ast")
+            for mode in modes:
+                cls = classes[mode]
+                for placement in ((PLACEMENTS[case % 6],) if quick else PLACEMENTS):
+                    for route in routes:
+                        for di in range(len(DATA)):
+                            bad = judge(cls, subset, ast, placement, di, p, route)
+                            if bad is None:
+                                continue
+                            # signature from the smallest sub-expression that still disagrees in the same placement
+                            small = ast
+                            while True:
+                                for _, child in G.subnodes(small):
+                                    cb = judge(cls, subset, child, placement, di, None, route)
+                                    if cb is not None and cb[0].split("/")[0] == bad[0].split("/")[0]:
+                                        small, bad = child, cb
+                                        break
+                                else:
+                                    break
+                            kind, msg, tsrc = bad
+                            tag = ("" if mode == "stock" else "/tables-removed") + ("" if route == "source" else "/" + route)
+                            p.violation(f"C20/{kind}/{placement}/{root_op(small)}{tag}", {
+                                "msg": msg + f"  (found in {G.to_src(ast)!r})", "subset": sorted(subset), "template": tsrc,
+                                "data": DATA[di], "tables": mode, "route": route,
+                                "script": script_for(subset, tsrc, DATA[di], mode, route)})
             p.sample({"intercepted": sorted(subset), "expr": G.to_src(ast),
                       "template": template_for(PLACEMENTS[case % 6], G.to_src(ast))}, cap=1)
     p.count("subsets")
@@ -290,4 +357,7 @@ def run(ctx: core.Ctx):
     ctx.pmap(shard, [(ctx.quick, i, s) for i, s in enumerate(subs)])
     ctx.cov["bounds"] = {"subsets": len(subs), "subset_sizes": "0,1,2,9" if ctx.quick else "all 512",
                          "shapes": SPACE.count(), "leaf_vectors": list(LEAF_VECS), "data_assignments": len(DATA),
-                         "placements": list(PLACEMENTS), "placements_per_template": "1 (rotating)" if ctx.quick else "6"}
+                         "placements": list(PLACEMENTS), "placements_per_template": "1 (rotating)" if ctx.quick else "6",
+                         "table_modes": "stock / intercepted entries removed" + (" (alternating)" if ctx.quick else " (both)"),
+                         "build_routes": "source; + AST parsed by a plain Environment for constant-leaf shapes"
+                         + ("" if ctx.quick else " and mixed shapes; + detached AST for constant-leaf shapes")}
